@@ -3,7 +3,7 @@
 # Usage: tools/seed_eval.sh <dir with patch.diff, demo_test.go|demo.sh, meta.json> <prop> [more props...]
 # Confirms in a scratch copy: the demo passes on the clean tree, the patch applies, the project's
 # suite still passes, the demo fails with the patch; then runs the named checks against it.
-DIR=$1; shift
+DIR=$(cd "$1" && pwd); shift
 export GOFLAGS=-mod=mod GOPROXY=off GOSUMDB=off GOTOOLCHAIN=local
 D=$(mktemp -d /tmp/jqseed.XXXXXX)
 trap 'rm -rf "$D"' EXIT
